@@ -56,7 +56,7 @@ FILES = {
     "tea-core/src/vec_core/trusted.rs": ["C09", "C19"],
     "tea-core/src/vec_core/uninit.rs": ["C19", "C10"],
     "tea-core/src/create.rs": ["C19"],
-    "tea-core/src/linspace.rs": ["C19"],
+    "tea-core/src/linspace.rs": ["C19", "C09"],
     "tea-core/src/vec_core/cores/own.rs": ["C19", "C09"],
     "tea-core/src/agg.rs": ["C11", "C20", "C08", "C12"],
     "tea-dtype/src/number.rs": ["C11", "C15", "C01"],
@@ -252,7 +252,7 @@ class Lane:
             return res
         verdict = "survived"
         checks = {}
-        for p in m["props"]:
+        for p in FILES.get(m["file"], m["props"]):
             rc, out = sh([os.path.join(VERIF, "check"), p, "--tier", "quick", "--modes", "dbg,rel"], cwd=VERIF, timeout=2400,
                          env=dict(VERIF_ALT_ROOT=self.root, VERIF_WORKERS=str(self.workers), VERIF_SHARD_TIMEOUT="900"))
             sigs = []
